@@ -1,5 +1,6 @@
 import BU.Properties.C11
 import BU.Properties.C11_Detect
+import BU.Properties.C11_Gen
 #print axioms C11.consts_tie
 #print axioms C11.segwit_prefixes
 #print axioms C11.hrp_cases
@@ -18,3 +19,8 @@ import BU.Properties.C11_Detect
 #print axioms C11.fold_weight_two
 #print axioms C11.syndrome_visible
 #print axioms C11.detects_up_to_two
+#print axioms C11Gen.gen_polymod
+#print axioms C11Gen.gen_hrp_expand
+#print axioms C11Gen.gen_verify_checksum
+#print axioms C11Gen.gen_create_checksum
+#print axioms C11Gen.gen_convertbits
